@@ -130,7 +130,14 @@ CONTRACTS.append(ZContract('krylov.arnoldi_iteration', _arnoldi, ('C14', 'C15'))
 
 
 def verify(prop, tier='quick'):
-    out = []
+    from . import idfresh
+    out = idfresh.verify(prop)
+    if prop in ('C12', 'C13'):
+        from . import ztrunc
+        try:
+            out += ztrunc.verify()
+        except Exception as e:
+            out.append(Verdict('truncation_rule', 'Z', 'undecided', f'executor error: {type(e).__name__}: {e}', 0, 'bond_ops.retained_bond_indices', 'ensures', 'z3'))
     for c in CONTRACTS:
         if prop in c.props:
             try:
